@@ -140,7 +140,7 @@ Definition bm : Type := (list (list (nat * Q)) * list (nat * sense) * nat)%type.
 
 (* the solve really runs (not skipped, no size error): then it factors the basis it returns *)
 Definition solve_runs (s : api) (dual : bool) : bool :=
-  negb (match a_basis s, a_cache s with Some _, Some _ => (negb dual || a_factorok s)%bool | _, _ => false end) &&
+  negb (match a_basis s, a_cache s with Some _, Some _ => a_factorok s | _, _ => false end) &&
   match a_basis s with Some b => dims_ok_b (a_p s) b | None => true end.
 
 Lemma eff_delrows_factor s p' ds : a_factorok (eff_delrows s p' ds) = false.
@@ -221,7 +221,7 @@ Proof.
       { unfold api_edit in *. destruct (pstep M (a_p s) o) as [p' r]. destruct r; simpl in *; try discriminate; reflexivity. }
       rewrite E in *. apply I. exact F.
   - (* solve *) unfold solve_runs, api_solve.
-    destruct (match a_basis s, a_cache s with Some _, Some _ => (negb dual || a_factorok s)%bool | _, _ => false end); simpl; [exact I|].
+    destruct (match a_basis s, a_cache s with Some _, Some _ => a_factorok s | _, _ => false end); simpl; [exact I|].
     destruct (a_basis s) as [b|] eqn:B.
     + destruct (dims_ok_b (a_p s) b); simpl.
       * intros _. exists (an_basis r). split; reflexivity.
